@@ -134,7 +134,7 @@ def hb_asked(g, old, k, data):
 def hb_wiring(result, ud_value, g, old):
     if result[0]:
         hb = result[1]
-        return (frame_n(g, old, 5)
+        return (frame_n(g, old, 5) and ok(g)
                 and hb_asked(g, old, 0, bytes([1]) + unhex(ud_value)) and hb_asked(g, old, 1, bytes([2]))
                 and hb_asked(g, old, 2, bytes([3])) and hb_asked(g, old, 3, bytes([4])) and hb_asked(g, old, 4, bytes([5]))
                 and hb["pubKey"] == hexs(ans(g, old, 4)[3:]) and hb["message"] == hexs(ans(g, old, 2)[3:])
